@@ -280,7 +280,8 @@ def print_performance_metrics_for_strat(
     n_total_operations = max(n_cpu_operations + n_npu_operations, 1)  # avoid potential divide by zero
 
     def format_tens_list(lst):
-        return " ".join(str(list(tens.shape)) for tens in lst)
+        # optional operands (e.g. an omitted bias) are None
+        return " ".join(str(list(tens.shape)) for tens in lst if tens is not None)
 
     for str_ops_type, n_ops, ops in (
         ("CPU", n_cpu_operations, cpu_operations),
